@@ -168,6 +168,24 @@ fn binary_ops(a: &BTreeSet<u32>, b: &BTreeSet<u32>, how: u64, out: &mut CaseOut)
     check_group(&(&ga & &gb), &int, "ref&ref", out);
     check_group(&(ga.clone() & gb.clone()), &int, "own&own", out);
     check_group(&(ga.clone() & &gb), &int, "own&ref", out);
+    // copies: clone and clone_from (into a target that held other, possibly more, members)
+    bump_n(&mut out.events, "HpoGroup::clone", 1);
+    bump_n(&mut out.events, "HpoGroup::clone_from", 2);
+    check_group(&ga.clone(), a, "clone", out);
+    let mut d = ga.clone();
+    d.clone_from(&gb);
+    check_group(&d, b, "clone_from", out);
+    let mut d2 = gb.clone();
+    d2.clone_from(&ga);
+    check_group(&d2, a, "clone_from", out);
+    // the copy is a group in its own right
+    if let Some(x) = a.iter().next() {
+        let mut e = b.clone();
+        let newly = e.insert(*x);
+        let got = d.insert(tid(*x));
+        out.check(got == newly, "C12", "insert_return", || format!("insert({x}) into a clone_from copy returned {got}, model {newly}"));
+        check_group(&d, &e, "insert_after_clone_from", out);
+    }
     // operands untouched
     check_group(&ga, a, "lhs_after_ops", out);
     check_group(&gb, b, "rhs_after_ops", out);
